@@ -732,6 +732,8 @@ def parse_strace(log_path: str, c: dict, d: str) -> SysTrace:
             ent = fd_get(int(args[0]), pid)
             if ent and ent[0] in dest_paths:
                 ev = {"a": "WriteDest"}
+        if ret == "?" and tr.killed_in is not None:
+            continue   # calls of OTHER threads that were pending when the injected SIGKILL ended the process
         if ev is None:
             if injected or ret == "?":
                 tr.unmapped.append(f"{name}:{'kill' if ret == '?' else 'fail'}")
